@@ -53,7 +53,7 @@ func genC18(seed uint64, tier string) *plan.Plan {
 	// with a re-used configuration object most sessions keep the same protocol / ServerName mode /
 	// client certificate (the application edits nothing between them) while the peer changes
 	reuse := pl.Cfg["reuse"] == 1
-	baseProto, baseSN, baseCli := int64(r.IntN(2)), int64(r.IntN(3)), int64(r.IntN(4))
+	baseProto, baseSN, baseCli := int64(r.IntN(2)), int64(r.IntN(4)), int64(r.IntN(4))
 	var prev *plan.Op
 	for i := 0; i < n; i++ {
 		kind := []int64{0, 0, 0, 0, 0, 1, 2, 3}[r.IntN(8)]
@@ -77,7 +77,7 @@ func genC18(seed uint64, tier string) *plan.Plan {
 		if r.IntN(3) == 0 {
 			host = 1 // a second collector address for which no certificate of the zoo is valid
 		}
-		sn, cli := int64(r.IntN(3)), int64(r.IntN(4))
+		sn, cli := int64(r.IntN(4)), int64(r.IntN(4))
 		if reuse && r.IntN(10) < 8 {
 			sn, cli = baseSN, baseCli
 			if prev != nil && r.IntN(2) == 0 {
@@ -157,6 +157,8 @@ func c18ExpectationCA(proto, cert, day, snMode, cliCert, cliCA int, v6 bool, hos
 		e.mustRefuse, e.why = true, "server certificate does not match the expected name"
 	case snMode == 1 && !hasDNSSAN:
 		e.mustRefuse, e.why = true, "server certificate has no matching DNS name"
+	case snMode == 3 && !hasIPSAN:
+		e.mustRefuse, e.why = true, "the expected name is the collector's address (as a bracketed literal) and the server certificate has no SAN for that address"
 	case snMode == 0 && proto == 0 && !hasIPSAN:
 		e.mustRefuse, e.why = true, "server certificate has no SAN for the address dialled"
 	}
@@ -202,7 +204,7 @@ func runC18(pl *plan.Plan, out *plan.Outcome) {
 			copy(n, op.N)
 			hostB := n[4] == 1
 			kind, proto, cert, day := int(op.A), int(op.B)&1, int(op.C)%len(srvCerts), int(op.D)
-			snMode, cliCert, cliCA, maxV := int(n[0])%3, int(n[1])%4, int(n[2])&1, int(n[3])
+			snMode, cliCert, cliCA, maxV := int(n[0])%4, int(n[1])%4, int(n[2])&1, int(n[3])
 			cells += fmt.Sprintf("[%d %d %d %d %d %d %d %d %v]", kind, proto, cert, day, snMode, cliCert, cliCA, maxV, hostB)
 			for _, x := range op.F {
 				cells += fmt.Sprintf("(%d %d %d %d %d)", x.A, x.B, x.C, x.D, x.T)
@@ -235,7 +237,8 @@ func runC18(pl *plan.Plan, out *plan.Outcome) {
 			// The application writes a field only when its own intended value changes (a re-used
 			// configuration object is edited in place, it is not re-initialised): whatever the
 			// library may have stored in the object stays there.
-			wantName := []string{"", serverDNSName, "wrong.example"}[snMode]
+			// mode 3: the address itself, written the way it appears in a host:port string
+			wantName := []string{"", serverDNSName, "wrong.example", "[" + h + "]"}[snMode]
 			var wantCert, wantKey []byte
 			if cliCert > 0 {
 				wantCert, wantKey = cliCerts[cliCert].CertPEM, cliCerts[cliCert].KeyPEM
